@@ -339,7 +339,11 @@ def run_case(spec):
             nrows = 0
             sub = "overshoot" if opts["allow_billing_period_overshoot"] else "no-overshoot"
             sub += ":max_days=None" if md is None else ""
-            if isinstance(e, KeyError) and "non-monotonic index" in str(e) and any(_in_repeated_hour(x, data.index.tz) for x in (cut, other) if x is not None):
+            # the limits the function looks up: the explicit ones and the one it derives from max_days (limit -/+ max_days x 24 h)
+            looked_up = [x for x in (cut, other) if x is not None]
+            if md is not None:
+                looked_up += [pd.Timestamp(cut) - pd.Timedelta(days=md) if base else pd.Timestamp(cut) + pd.Timedelta(days=md)]
+            if isinstance(e, KeyError) and "non-monotonic index" in str(e) and any(_in_repeated_hour(x, data.index.tz) for x in looked_up):
                 sub = "limit-inside-the-repeated-hour-of-a-dst-fall-back"
             VIOL.append(dict(mech="%s:unexpected-%s:%s" % ("baseline" if base else "reporting", type(e).__name__, sub),
                              what="raised %s: %s instead of returning a selection or the dedicated error" % (type(e).__name__, str(e)[:120])))
